@@ -135,7 +135,7 @@ theorem good_lastMatch (pos : Pos) (tok : Nat) (ipos : Pos) (name : String) {las
     split at h
     · exact h
     · cases h
-  · exact good_compileValueIdent pos tok name (good_emit_ (by decide)) _
+  · exact good_compileValueIdent pos tok name (good_emit_ (by decide) (by opa)) _
 
 theorem step_valueIdents {n : Nat} (ih : AllGood n) (pos : Pos) (tok : Nat) :
     ∀ (ids : List (Pos × String)) (vals : List (Option Expr)) (last : Option (CM Unit × VSum)),
@@ -178,7 +178,7 @@ theorem step_valueSpecs {n : Nat} (ih : AllGood n) (pos : Pos) (tok : Nat) :
     · exact GoodP.bind h1 fun l hl' => h2 l hl'
 
 
-theorem st_done {s0 s : CState} {ps : List Nat} (h : St s0 ps s) : Inv s ∧ Rel s0 s ∧ True := ⟨h.inv, h.rel, trivial⟩
+theorem st_done {s0 s : CState} {ps ts : List Nat} (h : St s0 ps ts s) : Inv s ∧ Rel s0 s ∧ True := ⟨h.inv, h.rel, trivial⟩
 
 theorem step_expr {n : Nat} (ih : AllGood n) (e : Expr) (hsz : sizeOf e < n + 1) (hok : okE e = true) :
     Good (compileExpr e) := by
@@ -196,10 +196,10 @@ theorem step_expr {n : Nat} (ih : AllGood n) (e : Expr) (hsz : sizeOf e < n + 1)
     · intro s hs
       have hst := St.init hs
       apply st_good_bind h1 hst; intro _ s1 _ hst
-      apply st_emit_bind hst (by opc); intro s2 hst
+      apply st_emit_bind hst (by opc) (.inl (by opa)); intro s2 hst
       apply st_good_bind h2 hst; intro _ s3 _ hst
-      apply st_good_bind good_curPos hst; intro c s4 _ hst
-      exact st_changeOperand hst (by simp) (fun s' h => st_done h)
+      apply st_curPos_bind hst; intro hst
+      exact st_changeOperand hst (by simp) (argsIn_one (.inr (by simp))) (fun s' h => st_done h)
     · good
   | int pos v => unfold compileExpr; good
   | uint pos v => unfold compileExpr; good
@@ -285,14 +285,14 @@ theorem step_expr {n : Nat} (ih : AllGood n) (e : Expr) (hsz : sizeOf e < n + 1)
     · intro s hs
       have hst := St.init hs
       apply st_good_bind hc hst; intro _ s1 _ hst
-      apply st_emit_bind hst (by decide); intro s2 hst
+      apply st_emit_bind hst (by decide) (.inl (by opa)); intro s2 hst
       apply st_good_bind ht hst; intro _ s3 _ hst
-      apply st_emit_bind hst (by decide); intro s4 hst
-      apply st_good_bind good_curPos hst; intro c1 s5 _ hst
-      apply st_changeOperand_bind hst (by simp); intro s6 hst
+      apply st_emit_bind hst (by decide) (.inl (by opa)); intro s4 hst
+      apply st_curPos_bind hst; intro hst
+      apply st_changeOperand_bind hst (by simp) (argsIn_one (.inr (by simp))); intro s6 hst
       apply st_good_bind hf hst; intro _ s7 _ hst
-      apply st_good_bind good_curPos hst; intro c2 s8 _ hst
-      exact st_changeOperand hst (by simp) (fun s' h => st_done h)
+      apply st_curPos_bind hst; intro hst
+      exact st_changeOperand hst (by simp) (argsIn_one (.inr (by simp))) (fun s' h => st_done h)
 
 
 /-- the defining equation of `compileStmt` (copied from the model; checked by `rfl` per case) -/
@@ -471,7 +471,7 @@ theorem good_optStmt {n : Nat} (ih : AllGood n) (o : Option Stmt)
 /-- the `else` part of an if statement: the pending jump `j` is patched -/
 theorem st_ifTail {n : Nat} (ih : AllGood n) (pos : Pos) (els : Option Stmt)
     (hok : (match els with | some i => okS i | none => true) = true) (hsz : sizeOf els < n)
-    {s0 s : CState} {ps : List Nat} {j : Nat} (hst : St s0 ps s) (hj : j ∈ ps) :
+    {s0 s : CState} {ps ts : List Nat} {j : Nat} (hst : St s0 ps ts s) (hj : j ∈ ps) :
     Sat (match els with
       | some e => do
         let j2 ← emit pos OpJump [0]
@@ -482,17 +482,17 @@ theorem st_ifTail {n : Nat} (ih : AllGood n) (pos : Pos) (els : Option Stmt)
   cases els with
   | none =>
     simp only
-    apply st_good_bind good_curPos hst; intro c s1 _ hst
-    exact st_changeOperand hst hj (fun s' h => st_done h)
+    apply st_curPos_bind hst; intro hst
+    exact st_changeOperand hst hj (argsIn_one (.inr (by simp))) (fun s' h => st_done h)
   | some e =>
     have he := ih.stmt e (by sz) hok
     simp only
-    apply st_emit_bind hst (by decide); intro s1 hst
-    apply st_good_bind good_curPos hst; intro c s2 _ hst
-    apply st_changeOperand_bind hst (by simp [hj]); intro s3 hst
+    apply st_emit_bind hst (by decide) (.inl (by opa)); intro s1 hst
+    apply st_curPos_bind hst; intro hst
+    apply st_changeOperand_bind hst (by simp [hj]) (argsIn_one (.inr (by simp))); intro s3 hst
     apply st_good_bind he hst; intro _ s4 _ hst
-    apply st_good_bind good_curPos hst; intro c2 s5 _ hst
-    exact st_changeOperand hst (by simp) (fun s' h => st_done h)
+    apply st_curPos_bind hst; intro hst
+    exact st_changeOperand hst (by simp) (argsIn_one (.inr (by simp))) (fun s' h => st_done h)
 
 theorem step_stmt {n : Nat} (ih : AllGood n) (st : Stmt) (hsz : sizeOf st < n + 1) (hok : okS st = true) :
     Good (compileStmt st) := by
@@ -540,10 +540,10 @@ theorem step_stmt {n : Nat} (ih : AllGood n) (st : Stmt) (hsz : sizeOf st < n + 
     apply st_good_bind hinit hst; intro _ s1 _ hst
     split
     · exact Sat.mono (hb s1 hst.inv) fun _ s' ⟨h1, h2, _⟩ => st_done (hst.step h1 h2)
-    · apply st_emit_bind hst (by decide); intro s2 hst
+    · apply st_emit_bind hst (by decide) (.inl (by opa)); intro s2 hst
       exact st_ifTail ih pos els hok.2 hels hst (by simp)
     · apply st_good_bind hc hst; intro _ s2 _ hst
-      apply st_emit_bind hst (by decide); intro s3 hst
+      apply st_emit_bind hst (by decide) (.inl (by opa)); intro s3 hst
       apply st_good_bind hb hst; intro _ s4 _ hst
       exact st_ifTail ih pos els hok.2 hels hst (by simp)
   | for_ pos init cond post bp body =>
@@ -557,31 +557,31 @@ theorem step_stmt {n : Nat} (ih : AllGood n) (st : Stmt) (hsz : sizeOf st < n + 
     intro s hs
     have hst := St.init hs
     apply st_good_bind hinit hst; intro _ s1 _ hst
-    apply st_good_bind good_curPos hst; intro pre s2 _ hst
+    apply st_curPos_bind hst; intro hst
     cases cond with
     | none =>
       simp only [pure_bind]
       apply st_withLoop_bind hb hst; intro loop s4 hst
-      apply st_good_bind good_curPos hst; intro pb s5 _ hst
+      apply st_curPos_bind hst; intro hst
       apply st_good_bind hpost hst; intro _ s6 _ hst
-      apply st_good_bind (good_emit_ (by decide)) hst; intro _ s7 _ hst
-      apply st_good_bind good_curPos hst; intro ps' s8 _ hst
-      apply st_patchAll_bind hst (by intro p hp; simp [hp]); intro s9 hst
-      exact st_patchAll hst (by intro p hp; simp [hp]) (fun s' h => st_done h)
+      apply st_emit__bind hst (by decide) (.inr (argsIn_one (.inr (by simp)))); intro s7 hst
+      apply st_curPos_bind hst; intro hst
+      apply st_patchAll_bind hst (by intro p hp; simp [hp]) (by simp); intro s9 hst
+      exact st_patchAll hst (by intro p hp; simp [hp]) (by simp) (fun s' h => st_done h)
     | some c =>
       unfold okS at hok
       have hc := ih.expr c (by sz) hok.1.1.2
       simp only [bind_assoc, pure_bind]
       apply st_good_bind hc hst; intro _ s3 _ hst
-      apply st_emit_bind hst (by decide); intro s3' hst
+      apply st_emit_bind hst (by decide) (.inl (by opa)); intro s3' hst
       apply st_withLoop_bind hb hst; intro loop s4 hst
-      apply st_good_bind good_curPos hst; intro pb s5 _ hst
+      apply st_curPos_bind hst; intro hst
       apply st_good_bind hpost hst; intro _ s6 _ hst
-      apply st_good_bind (good_emit_ (by decide)) hst; intro _ s7 _ hst
-      apply st_good_bind good_curPos hst; intro ps' s8 _ hst
-      apply st_changeOperand_bind hst (by simp); intro s9 hst
-      apply st_patchAll_bind hst (by intro p hp; simp [hp]); intro s10 hst
-      exact st_patchAll hst (by intro p hp; simp [hp]) (fun s' h => st_done h)
+      apply st_emit__bind hst (by decide) (.inr (argsIn_one (.inr (by simp)))); intro s7 hst
+      apply st_curPos_bind hst; intro hst
+      apply st_changeOperand_bind hst (by simp) (argsIn_one (.inr (by simp))); intro s9 hst
+      apply st_patchAll_bind hst (by intro p hp; simp [hp]) (by simp); intro s10 hst
+      exact st_patchAll hst (by intro p hp; simp [hp]) (by simp) (fun s' h => st_done h)
   | forin pos key value iter bp body =>
     rw [okS, Bool.and_eq_true] at hok
     have hit := ih.expr iter (by sz) hok.1
@@ -596,25 +596,25 @@ theorem step_stmt {n : Nat} (ih : AllGood n) (st : Stmt) (hsz : sizeOf st < n + 
     split
     · exact Sat.cerr
     · apply st_good_bind hit hst; intro _ s2 _ hst
-      apply st_good_bind (good_emit_ (by decide)) hst; intro _ s3 _ hst
-      apply st_good_bind (good_emit_ (by decide)) hst; intro _ s4 _ hst
-      apply st_good_bind good_curPos hst; intro pre s5 _ hst
-      apply st_good_bind (good_emit_ (by decide)) hst; intro _ s6 _ hst
-      apply st_good_bind (good_emit_ (by decide)) hst; intro _ s7 _ hst
-      apply st_emit_bind hst (by decide); intro s8 hst
+      apply st_good_bind (good_emit_ (by decide) (by opa)) hst; intro _ s3 _ hst
+      apply st_good_bind (good_emit_ (by decide) (by opa)) hst; intro _ s4 _ hst
+      apply st_curPos_bind hst; intro hst
+      apply st_good_bind (good_emit_ (by decide) (by opa)) hst; intro _ s6 _ hst
+      apply st_good_bind (good_emit_ (by decide) (by opa)) hst; intro _ s7 _ hst
+      apply st_emit_bind hst (by decide) (.inl (by opa)); intro s8 hst
       have hbody : Good (do
           forinVar pos itSym.index OpIterKey key
           forinVar pos itSym.index OpIterValue value
           blockOf body (compileStmts body)) :=
-        GoodP.bind (good_forinVar pos _ (by decide) key) fun _ _ =>
-          GoodP.bind (good_forinVar pos _ (by decide) value) fun _ _ => hb
+        GoodP.bind (good_forinVar pos _ (by decide) (by opa) key) fun _ _ =>
+          GoodP.bind (good_forinVar pos _ (by decide) (by opa) value) fun _ _ => hb
       apply st_withLoop_bind hbody hst; intro loop s9 hst
-      apply st_good_bind good_curPos hst; intro pb s10 _ hst
-      apply st_good_bind (good_emit_ (by decide)) hst; intro _ s11 _ hst
-      apply st_good_bind good_curPos hst; intro ps' s12 _ hst
-      apply st_changeOperand_bind hst (by simp); intro s13 hst
-      apply st_patchAll_bind hst (by intro p hp; simp [hp]); intro s14 hst
-      exact st_patchAll hst (by intro p hp; simp [hp]) (fun s' h => st_done h)
+      apply st_curPos_bind hst; intro hst
+      apply st_emit__bind hst (by decide) (.inr (argsIn_one (.inr (by simp)))); intro s11 hst
+      apply st_curPos_bind hst; intro hst
+      apply st_changeOperand_bind hst (by simp) (argsIn_one (.inr (by simp))); intro s13 hst
+      apply st_patchAll_bind hst (by intro p hp; simp [hp]) (by simp); intro s14 hst
+      exact st_patchAll hst (by intro p hp; simp [hp]) (by simp) (fun s' h => st_done h)
   | branch pos tok => rw [compileStmt_eq]; simp only; good
   | return_ pos e =>
     unfold okS at hok
@@ -627,27 +627,38 @@ theorem step_stmt {n : Nat} (ih : AllGood n) (st : Stmt) (hsz : sizeOf st < n + 
     unfold okS at hok
     simp only [Bool.and_eq_true] at hok
     have hbody := ih.stmts body (by sz) hok.1.1
-    have hfin : Good (match f with
-        | some (fpos, _, fbody) => do let p ← emit fpos OpSetupFinally; compileStmts fbody; Pure.pure p
-        | none => emit pos OpSetupFinally) := by
+    -- the `finally` part: emits SETUPFINALLY (its position is the finally target), then the body
+    have hfin : ∀ {s0 s : CState} {ps ts : List Nat} {Q : Unit → CState → Prop} (g : Nat → CM Unit),
+        St s0 ps ts s →
+        (∀ fp s', St s0 ps (fp :: ts) s' → Sat (g fp) s' Q) →
+        Sat ((match f with
+          | some (fpos, _, fbody) => do let p ← emit fpos OpSetupFinally; compileStmts fbody; Pure.pure p
+          | none => emit pos OpSetupFinally) >>= g) s Q := by
+      intro s0 s ps ts Q g hst hg
       cases f with
-      | none => good
+      | none =>
+        simp only
+        apply st_emit_bind hst (by decide) (.inl (by opa)); intro s' hst'
+        exact hg _ s' (hst'.weaken (fun p hp => by simp [hp]) (fun t ht => ht))
       | some fv =>
         obtain ⟨f1, f2, f3⟩ := fv
-        have := ih.stmts f3 (by sz) hok.2
-        good
+        have hfb := ih.stmts f3 (by sz) hok.2
+        simp only [bind_assoc, pure_bind]
+        apply st_emit_bind hst (by decide) (.inl (by opa)); intro s' hst'
+        apply st_good_bind hfb hst'; intro _ s'' _ hst''
+        exact hg _ s'' (hst''.weaken (fun p hp => by simp [hp]) (fun t ht => ht))
     rw [compileStmt_eq]; simp only
     refine GoodP.bind (P := fun _ => True) (good_withBlock ?_) (fun _ _ => ?_)
     · intro s hs
       have hst := St.init hs
       apply st_good_bind (good_tryIdx (· + 1)) hst; intro _ s1 _ hst
-      apply st_emit_bind hst (by decide); intro s2 hst
+      apply st_emit_bind hst (by decide) (.inl (by opa)); intro s2 hst
       apply st_good_bind hbody hst; intro _ s3 _ hst
       cases c with
       | none =>
         simp only
-        apply st_good_bind hfin hst; intro fp s4 _ hst
-        exact st_changeOperand hst (by simp) (fun s' h => st_done h)
+        apply hfin _ hst; intro fp s4 hst
+        exact st_changeOperand hst (by simp) (argsIn_two (t1 := 0) (.inl rfl) (.inr (by simp))) (fun s' h => st_done h)
       | some cv =>
         obtain ⟨cpos, ident, c3, cbody⟩ := cv
         have hcb := ih.stmts cbody (by sz) hok.1.2
@@ -659,17 +670,16 @@ theorem step_stmt {n : Nat} (ih : AllGood n) (st : Stmt) (hsz : sizeOf st < n + 
             | none => emit_ cpos OpPop) := by cases ident <;> good
         simp only
         apply st_good_bind hid1 hst; intro _ s4 _ hst
-        apply st_emit_bind hst (by decide); intro s5 hst
-        apply st_good_bind good_curPos hst; intro cp s6 _ hst
-        apply st_good_bind (good_emit_ (by decide)) hst; intro _ s7 _ hst
+        apply st_emit_bind hst (by decide) (.inl (by opa)); intro s5 hst
+        apply st_curPos_bind hst; intro hst
+        apply st_good_bind (good_emit_ (by decide) (by opa)) hst; intro _ s7 _ hst
         apply st_good_bind hid2 hst; intro _ s8 _ hst
         apply st_good_bind hcb hst; intro _ s9 _ hst
-        apply st_good_bind hfin hst; intro fp s10 _ hst
-        apply st_changeOperand_bind hst (by simp); intro s11 hst
-        exact st_changeOperand hst (by simp) (fun s' h => st_done h)
+        apply hfin _ hst; intro fp s10 hst
+        apply st_changeOperand_bind hst (by simp) (argsIn_two (.inr (by simp)) (.inr (by simp))); intro s11 hst
+        exact st_changeOperand hst (by simp) (argsIn_one (.inr (by simp))) (fun s' h => st_done h)
     · have := good_tryIdx (· - 1)
       good
-
   | throw pos e =>
     unfold okS at hok
     cases e with
@@ -711,7 +721,7 @@ theorem good_compileProg (file : List Stmt) (hok : okSs file = true) : Good (com
 
 theorem inv_initState (builtins : List (String × Nat)) (disabled : List String) : Inv (initState builtins disabled) := by
   refine ⟨by simp [initState], ?_, Walk.refl 0, fun l hl => by simp [initState] at hl,
-    fun c hc => by simp [initState] at hc⟩
+    fun c hc => by simp [initState] at hc, fun p op hbd _ => absurd hbd.2 (by simp [initState])⟩
   intro t ht
   simp [initState] at ht
   subst ht
